@@ -172,6 +172,47 @@ def run(ctx):
                     o['shown'] = []
                     o['err'] = type(ex).__name__
                 obs.append(o)
+    # the protection of a page fault is the one of ITS OWN first decoded real-fault record - not of a record left over
+    # by an earlier fault of the thread (failed, cut off at the start of the dump, or outside any fault)
+    from .pairing import World, new_parser
+    nfault = 0
+    for rep in range(60 if ctx.quick else 1000):
+        w = World(rnd)
+        pa, pb = rnd.randrange(0, 8), rnd.randrange(0, 8)
+        kind = rep % 5
+        left = [[w.rfa(1, 90, pa, kind=rnd.randrange(3))],                                        # outside any fault
+                [w.vmf(1, 1), w.rfa(1, 90, pa, kind=rnd.randrange(3)), w.vmf(2, 1, 5, 1)],       # a failed fault
+                [w.rfa(1, 90, pa, kind=rnd.randrange(3)), w.vmf(2, 1, 0, 1)]][rep % 3]           # dump starts inside a fault
+        if kind == 0:
+            body, want = [w.vmf(1, 1), w.rfau(1), w.vmf(2, 1, 0, 2)], None              # only an undecoded kind nested
+        elif kind == 1:
+            body, want = [w.vmf(1, 1), w.vmf(2, 1, 0, 2)], None                         # nothing nested
+        elif kind == 2:
+            body, want = [w.vmf(1, 1), w.rfa(1, 91, pb, kind=rnd.randrange(3)), w.vmf(2, 1, 0, 2)], pb
+        elif kind == 3:
+            body, want = [w.vmf(1, 1), w.rfa(1, 91, pb), w.rfa(1, 92, pa ^ 7), w.vmf(2, 1, 0, 2)], pb     # the first one
+        else:
+            body, want = [w.vmf(1, 1), w.rfau(1), w.rfa(1, 91, pb), w.vmf(2, 1, 0, 2)], None     # undecoded kind first: nothing shown
+        stream = left + body
+        o = {'id': 'vmprot/fault-after-history/%d' % rep, 'kind': 'flags', 'fam': 'vmprot',
+             'bits': [] if want is None else [i for i in range(8) if want >> i & 1],
+             'via': 'MACH_vmfault after %s, nested %s' % ([a.abs['cls'] for a in left], [a.abs['cls'] for a in body[1:-1]])}
+        try:
+            p_ = new_parser(w)
+            last = None
+            for k, a in enumerate(stream, 1):
+                r = p_.feed(w.concrete(a, k))
+                if r is not None:
+                    last = r
+            o['shown'] = [n for n in NAME_RE.findall(str(last)) if n.startswith('VM_PROT_')] if want is not None or True else []
+            if want is None and 'vm_prot' not in str(last):
+                o['shown'] = []
+        except Exception as ex:
+            o['shown'] = []
+            o['err'] = type(ex).__name__
+        nfault += 1
+        obs.append(o)
+    ctx.extra['faults_after_history'] = nfault
     # ioctl request words: every field exhaustively against representative values of the others
     IOC = re.compile(r"/\* _IOC\((.*), '(.|\n)', (\d+), (\d+)\) \*/", re.S)
     reqs = set()
